@@ -1069,7 +1069,7 @@ func main() {
 	if hb := root.funcs["BlockDownloader.handleBlock"]; hb != nil {
 		fx.CallOrders["handleBlock"] = callOrder(hb, map[string]bool{"ProcessTx": true, "AddMerkleProof": true,
 			"AddHash": true, "FinalizeMerkleProofs": true, "Verify": true, "ProcessCoinbaseTx": true,
-			"ConfirmTx": true, "AppendBlockTxIDs": true})
+			"ConfirmTx": true, "AppendBlockTxIDs": true, "wasCancelled": true})
 		found := false
 		ast.Inspect(hb.Body, func(n ast.Node) bool {
 			call, ok := n.(*ast.CallExpr)
